@@ -164,6 +164,15 @@ pub(crate) fn solve_expression(
                         return SolverResult::False;
                     }
                 }
+                (Expression::Cast(left, ModSym::Str), BoolSym::Equal, Expression::Null) => {
+                    // NOTE: A string cast is never null, but like every other predicate it is
+                    // missing, not false, when the document does not have the field
+                    if document.find(left).is_none() {
+                        debug!("evaluating missing, no left hand side for {}", expression);
+                        return SolverResult::Missing;
+                    }
+                    return SolverResult::False;
+                }
                 _ => {}
             }
             // Boolean expressions
